@@ -428,6 +428,51 @@ def _filter(ctx):
                               ok, '%s -> %s; a rejected exception must '
                               'propagate as the same object' % (
                                   label, o.brief()), case=label)
+    # a filter wrapped around a filter (the decorator applied twice, or
+    # exception_filter(obj.bound_filter)): the outer one still asks the real
+    # predicate and honours its verdict
+    for accept in (True, False):
+        label = 'filter around a filter, predicate=%s' % accept
+        holder = {}
+
+        def thunk(interp):
+            fn = Obj(None, {'__name__': K('pred'), '__qualname__': K('pred'),
+                            '__module__': K('m'), '__doc__': K(None),
+                            '__annotations__': DictV([]),
+                            '__type_params__': K(()), '__closed__': True},
+                     label='predicate-function')
+
+            def beh(interp2, a, kw):
+                interp2.effect('predicate', tuple(
+                    interp2.termify(x) for x in a))
+                return K(accept)
+            fn.fields['__call__'] = AbsFunc('predicate', beh)
+            inner = interp.call(cls, [fn])
+            outer = interp.call(cls, [inner])
+            ex = exc_obj('ex', 'KeyError')
+            holder['ex'] = ex
+            interp.effects[:] = []
+            _fake_frame(interp, ex)
+            try:
+                return interp.call(interp.get_attr(outer, '__call__'), [ex])
+            finally:
+                interp.frames.pop()
+        outcomes, _i = extract(world, thunk, setup=_setup)
+        o = _one(rep, 'R9.3', label, outcomes)
+        if o is None:
+            continue
+        if accept:
+            ok = o.kind == 'return' and isinstance(o.value, K) and \
+                o.value.v is None
+            rep.check('R9.3', 'exception_filter[twice]:accepted', ok,
+                      '%s -> %s; an accepted exception is suppressed' % (
+                          label, o.brief()), case=label)
+        else:
+            ok = o.kind == 'raise' and isinstance(o.value, Obj) and \
+                o.value.label == 'ex'
+            rep.check('R9.3', 'exception_filter[twice]:rejected', ok,
+                      '%s -> %s; a rejected exception propagates as the '
+                      'same object' % (label, o.brief()), case=label)
     # __get__: binding is per instance
     holder = {}
 
